@@ -358,6 +358,32 @@ func init() {
 				}
 			}
 		}
+		// ServeHTTP's own refusals (DNS rebinding protection, cross-origin protection) come before the dispatch
+		if fd := c.Func(dir, "StreamableHTTPHandler", "ServeHTTP"); fd != nil {
+			var order []string
+			for _, s := range fd.Body.List {
+				if is, ok := s.(*ast.IfStmt); ok {
+					switch c.Src(is.Cond) {
+					case `!h.opts.DisableLocalhostProtection && disablelocalhostprotection != "1"`:
+						e := httpErrorsIn(c, is.Body)
+						get("serveBadHost", first(e), len(e) == 1)
+						order = append(order, "BadHost")
+					case "h.opts.CrossOriginProtection != nil":
+						e := httpErrorsIn(c, is.Body)
+						get("serveCrossOrigin", first(e), len(e) == 1)
+						order = append(order, "CrossOrigin")
+					case "h.opts.Stateless":
+						order = append(order, "<dispatch>")
+					}
+				}
+			}
+			gate["ServeHTTP"] = order
+		}
+		for _, nm := range []string{"serveBadHost", "serveCrossOrigin"} {
+			if _, ok := st[nm]; !ok {
+				get(nm, 0, false)
+			}
+		}
 		c.Fact("sessions.gate_order", gate)
 		// the creation path of a stateful endpoint whose GetSessionID returns "": a temporary session, never published
 		if fd := c.Func(dir, "StreamableHTTPHandler", "serveStatefulPOST"); fd != nil {
